@@ -781,7 +781,7 @@ class MultiStream(Stream):
             data[phase_index, IDs_index] = other_data[phase_index, IDs_index]
             if remove: other_data[phase_index, IDs_index] = 0.
         else:
-            data[:] = 0.
+            data[:, IDs_index] = 0. # Only the flows being copied are replaced
             other_phase_index = self.imol.get_phase_index(other.phase)
             if phase is ... or phase_index == other_phase_index:
                 data[other_phase_index, IDs_index] = other_data[IDs_index]
